@@ -21,7 +21,7 @@ LogDeliv(r) == { [id |-> x.id, retry |-> x.retry] : x \in ToSet(r.deliv) }
 SpecDeliv(D) == { D[i] : i \in DOMAIN D }
 
 Say(what) == PrintT("ACK|VIOLATION|" \o what \o "|" \o ToString(sc) \o "|" \o ToString(l))
-Must(what, ok) == ok \/ Say(what)
+Must(what, ok) == IF ok THEN TRUE ELSE Say(what)
 
 OpStep(r) ==
   CASE r.op = "Emit"     -> Emit(r.id)
